@@ -60,15 +60,16 @@ type mGraph struct {
 	Edges []mEdge `json:"edges"`
 }
 type mObs struct {
-	Universe []mArt          `json:"universe"`
-	Root     uRoot           `json:"root"`
-	SoftOnly bool            `json:"softonly"`
-	Ok       bool            `json:"ok"`
-	Err      string          `json:"err"`
-	GErr     string          `json:"gerr"`
-	Graph    mGraph          `json:"graph"`
-	Unmapped string          `json:"unmapped"`
-	Model    json.RawMessage `json:"model,omitempty"`
+	Universe  []mArt          `json:"universe"`
+	Root      uRoot           `json:"root"`
+	SoftOnly  bool            `json:"softonly"`
+	Ok        bool            `json:"ok"`
+	Err       string          `json:"err"`
+	GErr      string          `json:"gerr"`
+	Graph     mGraph          `json:"graph"`
+	Unmapped  string          `json:"unmapped"`
+	Model     json.RawMessage `json:"model,omitempty"`
+	Restarted bool            `json:"restarted"` // the resolution abandoned at least one attempt (reported by the hook)
 }
 
 func mavenDepType(d mDep) dep.Type {
@@ -169,25 +170,33 @@ func cmdMaven(args []string) error {
 		defer steps.Close()
 	}
 	for _, c := range cases {
-		if steps != nil {
-			stepGen++
-			gen := stepGen
-			stepBuf = []stepEv{{Ev: "start", Universe: c.Universe}}
-			maven.VerifStep = func(ev, name, ver, req, outcome string, nodes, edges int) {
-				if gen != stepGen {
-					return // an abandoned resolution still running
-				}
-				stepBuf = append(stepBuf, stepEv{Ev: ev, Name: name, V: vidx[ver], R: ridx[req], Outcome: outcome, Nodes: nodes, Edges: edges})
+		// The hook always runs: the harness notes whether the resolution restarted, which the trace specification needs to
+		// tell the recorded stale-requirement deviation (C07-F25) from anything else.
+		stepGen++
+		gen := stepGen
+		stepBuf = []stepEv{{Ev: "start", Universe: c.Universe}}
+		restarted := false
+		maven.VerifStep = func(ev, name, ver, req, outcome string, nodes, edges int) {
+			if gen != stepGen {
+				return // an abandoned resolution still running
 			}
+			if ev == "restart" {
+				restarted = true
+			}
+			if steps == nil {
+				return
+			}
+			stepBuf = append(stepBuf, stepEv{Ev: ev, Name: name, V: vidx[ver], R: ridx[req], Outcome: outcome, Nodes: nodes, Edges: edges})
 		}
 		o := mObs{Universe: c.Universe, Root: c.Root, SoftOnly: c.SoftOnly, Graph: mGraph{Nodes: []nNode{}, Edges: []mEdge{}}, Model: c.Model}
 		lc := loadMavenUniverse(c, tb.Versions, tb.Reqs)
 		g, err := guarded(func() (*resolve.Graph, error) {
 			return maven.NewResolver(lc).Resolve(ctx, resolve.VersionKey{PackageKey: resolve.PackageKey{System: resolve.Maven, Name: c.Root.Name}, VersionType: resolve.Concrete, Version: tb.Versions[c.Root.V-1]})
 		})
+		maven.VerifStep = nil
+		stepGen++
+		o.Restarted = restarted
 		if steps != nil {
-			maven.VerifStep = nil
-			stepGen++
 			for i := range stepBuf {
 				if e := steps.Write(&stepBuf[i]); e != nil {
 					return e
